@@ -181,6 +181,8 @@ func (fc *FuncCtx) execBlock(st *State, list []ast.Stmt) flow {
 		r := fc.execStmt(cur, s)
 		f.brk = append(f.brk, r.brk...)
 		f.cont = append(f.cont, r.cont...)
+		f.lbrk = append(f.lbrk, r.lbrk...)
+		f.lcont = append(f.lcont, r.lcont...)
 		cur = r.next
 		if cur != nil {
 			fc.runHints(cur, s, "after")
@@ -405,8 +407,14 @@ func (fc *FuncCtx) execStmt(st *State, s ast.Stmt) flow {
 	case *ast.BranchStmt:
 		switch x.Tok {
 		case token.BREAK:
+			if x.Label != nil {
+				return flow{lbrk: []labState{{x.Label.Name, st}}}
+			}
 			return flow{brk: []*State{st}}
 		case token.CONTINUE:
+			if x.Label != nil {
+				return flow{lcont: []labState{{x.Label.Name, st}}}
+			}
 			return flow{cont: []*State{st}}
 		}
 		fc.fail(x.Pos(), "unsupported branch %s", x.Tok)
@@ -415,7 +423,16 @@ func (fc *FuncCtx) execStmt(st *State, s ast.Stmt) flow {
 	case *ast.EmptyStmt:
 		return flow{next: st}
 	case *ast.LabeledStmt:
-		return fc.execStmt(st, x.Stmt)
+		fc.pendingLabel = x.Label.Name
+		r := fc.execStmt(st, x.Stmt)
+		fc.pendingLabel = ""
+		// a labelled break out of a labelled non-loop statement lands after it
+		mine, rest := takeLabelled(r.lbrk, x.Label.Name)
+		if len(mine) > 0 {
+			r.next = fc.merge(append([]*State{r.next}, mine...))
+		}
+		r.lbrk = rest
+		return r
 	case *ast.DeferStmt:
 		fc.deferred = append(fc.deferred, x)
 		fc.execDeferNote(st, x)
@@ -586,6 +603,8 @@ func (fc *FuncCtx) execIf(st *State, x *ast.IfStmt) flow {
 	out := flow{}
 	out.brk = append(append(out.brk, tf.brk...), ef.brk...)
 	out.cont = append(append(out.cont, tf.cont...), ef.cont...)
+	out.lbrk = append(append(out.lbrk, tf.lbrk...), ef.lbrk...)
+	out.lcont = append(append(out.lcont, tf.lcont...), ef.lcont...)
 	out.next = fc.merge([]*State{tf.next, ef.next})
 	return out
 }
@@ -631,6 +650,8 @@ func (fc *FuncCtx) execSwitch(st *State, x *ast.SwitchStmt) flow {
 		// break inside switch exits the switch
 		outs = append(outs, r.brk...)
 		out.cont = append(out.cont, r.cont...)
+		out.lbrk = append(out.lbrk, r.lbrk...)
+		out.lcont = append(out.lcont, r.lcont...)
 		notPrev = And(notPrev, Not(cond))
 	}
 	ds := st.clone()
@@ -640,6 +661,8 @@ func (fc *FuncCtx) execSwitch(st *State, x *ast.SwitchStmt) flow {
 		outs = append(outs, r.next)
 		outs = append(outs, r.brk...)
 		out.cont = append(out.cont, r.cont...)
+		out.lbrk = append(out.lbrk, r.lbrk...)
+		out.lcont = append(out.lcont, r.lcont...)
 	} else {
 		outs = append(outs, ds)
 	}
@@ -992,6 +1015,8 @@ func (fc *FuncCtx) loopSpecCtx(st *State, bodyPos token.Pos) *specCtx {
 }
 
 func (fc *FuncCtx) execFor(st *State, x *ast.ForStmt) flow {
+	myLabel := fc.pendingLabel
+	fc.pendingLabel = ""
 	if x.Init != nil {
 		r := fc.execStmt(st, x.Init)
 		st = r.next
@@ -1033,7 +1058,9 @@ func (fc *FuncCtx) execFor(st *State, x *ast.ForStmt) flow {
 	fc.loopDepthPos = append(fc.loopDepthPos, x.Pos())
 	bf := fc.execBlock(body, x.Body.List)
 	fc.loopDepthPos = fc.loopDepthPos[:len(fc.loopDepthPos)-1]
-	ends := append([]*State{bf.next}, bf.cont...)
+	lcMine, lcRest := takeLabelled(bf.lcont, myLabel)
+	lbMine, lbRest := takeLabelled(bf.lbrk, myLabel)
+	ends := append(append([]*State{bf.next}, bf.cont...), lcMine...)
 	for _, e := range ends {
 		if e == nil {
 			continue
@@ -1049,11 +1076,13 @@ func (fc *FuncCtx) execFor(st *State, x *ast.ForStmt) flow {
 	if x.Cond == nil {
 		exit = nil
 	}
-	outs := append([]*State{exit}, bf.brk...)
-	return flow{next: fc.merge(outs)}
+	outs := append(append([]*State{exit}, bf.brk...), lbMine...)
+	return flow{next: fc.merge(outs), lbrk: lbRest, lcont: lcRest}
 }
 
 func (fc *FuncCtx) execRange(st *State, x *ast.RangeStmt) flow {
+	myLabel := fc.pendingLabel
+	fc.pendingLabel = ""
 	xt := fc.info.TypeOf(x.X)
 	keyText := types.ExprString(x.X)
 	lc := fc.loopContract("range", keyText, x.Pos())
@@ -1141,7 +1170,9 @@ func (fc *FuncCtx) execRange(st *State, x *ast.RangeStmt) flow {
 	fc.loopDepthPos = append(fc.loopDepthPos, x.Pos())
 	bf := fc.execBlock(body, x.Body.List)
 	fc.loopDepthPos = fc.loopDepthPos[:len(fc.loopDepthPos)-1]
-	ends := append([]*State{bf.next}, bf.cont...)
+	lcMine, lcRest := takeLabelled(bf.lcont, myLabel)
+	lbMine, lbRest := takeLabelled(bf.lbrk, myLabel)
+	ends := append(append([]*State{bf.next}, bf.cont...), lcMine...)
 	for _, e := range ends {
 		if e == nil {
 			continue
@@ -1155,7 +1186,7 @@ func (fc *FuncCtx) execRange(st *State, x *ast.RangeStmt) flow {
 	exit := head.clone()
 	exit.assume(Eq(k, n))
 	// after the loop the index var (if declared outside with =) — Go 1.22 per-iteration vars: not visible after loop
-	outs := append([]*State{exit}, bf.brk...)
+	outs := append(append([]*State{exit}, bf.brk...), lbMine...)
 	out := fc.merge(outs)
 	if out != nil {
 		for _, k := range []string{"$n", "$seq", idxName} {
@@ -1166,7 +1197,7 @@ func (fc *FuncCtx) execRange(st *State, x *ast.RangeStmt) flow {
 			}
 		}
 	}
-	return flow{next: out}
+	return flow{next: out, lbrk: lbRest, lcont: lcRest}
 }
 
 func sortTag(s *Sort) string {
